@@ -273,6 +273,27 @@ def main(tier, seed, replay=None):
                               "reported": [x.n3() for x in got], "expected": [x.n3() for x in expected]})
             bodies.append("check_expression %s %s (%s) (%s) %s %s" % (table_coq(I, table), I.graph(data), I.term(Literal(True)), expr_coq(I, e), I.terms(foci), I.terms(got)))
             meta.append({"kind": "expression", "shapes_ttl": ttl, "reported": [x.n3() for x in got]})
+            if rng.random() < 0.5:
+                # several sh:expression values on one shape are several constraints: next to an expression that always holds (the constant
+                # true) the other one reports what it reports alone, the verdict follows the results, and a shape that consults this one
+                # through sh:not sees the same conformance
+                ttl2 = PFX + fn_ttl + "ex:S a sh:NodeShape ; sh:expression %s , true .\nex:N a sh:NodeShape ; sh:not ex:S .\n" % expr_ttl(e)
+                sg2 = rdflib.Graph().parse(data=ttl2, format="turtle")
+                for fnode in foci:
+                    sg2.add((EX.S, SH.targetNode, fnode))
+                    sg2.add((EX.N, SH.targetNode, fnode))
+                o2 = S.run_validate(data, sg2, advanced=True)
+                stats["two_expression_cases"] = stats.get("two_expression_cases", 0) + 1
+                if o2[0] == "ok":
+                    got2 = sorted({r[0] for r in o2[2] if str(r[2]).endswith("ExpressionConstraintComponent")}, key=lambda t: t.n3())
+                    nots = sorted({r[0] for r in o2[2] if str(r[2]).endswith("NotConstraintComponent")}, key=lambda t: t.n3())
+                    want_not = sorted((f_ for f_ in foci if f_ not in expected), key=lambda t: t.n3())
+                    if got2 != expected or nots != want_not or o2[1] != (not o2[2]):
+                        diffs.append({"what": "a shape with two sh:expression values (one of them the constant true): reported nodes, the verdict or the conformance seen by sh:not differ from those of the other expression alone",
+                                      "shapes_ttl": ttl2, "data": sorted(data.serialize(format="nt").split("\n")), "reported": [x.n3() for x in got2], "expected": [x.n3() for x in expected],
+                                      "sh_not_reports": [x.n3() for x in nots], "sh_not_expected": [x.n3() for x in want_not], "conforms": o2[1]})
+                else:
+                    diffs.append({"what": "validate(advanced=True) with two sh:expression values failed: %r" % (o2[:3],), "shapes_ttl": ttl2})
             off = S.run_validate(data, sg)
             stats["advanced_off_cases"] += 1
             if off[0] != "ok" or any(str(r[2]).endswith("ExpressionConstraintComponent") for r in off[2]):
